@@ -889,6 +889,58 @@ def part_params(ctx):
     return len(SCENARIOS)
 
 
+# ------------- 3e. zoomify onto coarse bin sizes B = base*k incl. those whose reciprocal rounds down in binary64
+def part_binsize_sweep(ctx):
+    import cooler
+    thorough = ctx.tier == "thorough"
+    tmpdir = ctx.tmp / "bsweep"
+    tmpdir.mkdir(exist_ok=True)
+    plan = G.binsize_sweep_plan(ctx.rng, thorough, per_base=2)
+    n, nbad = 0, 0
+    for pi, (base, ks) in enumerate(plan):
+        if base == 1:
+            continue            # zoomify's resolution 1 is reserved for variable-bin bases; width 1 is swept by harness/c08.py
+        bad_ks = [k for k in ks if G.reciprocal_rounds_down(base * k)]
+        use = ks if thorough else (bad_ks + [k for k in ks if k not in bad_ks][:1])
+        widths, pixels = G.binsize_sweep_cooler(base, ks)
+        blocks = blocks_from_widths(widths)
+        a, m = tmpdir / f"b{pi}.cool", tmpdir / f"b{pi}.mcool"
+        G.make_cooler(a, blocks, pixels, True)
+        case = {"fn": "zoomify_cooler (coarse bin size sweep)", "base": base, "ks": use, "widths": widths, "pixels": pixels, "chunksize": 1000}
+        n += len(use)
+        nbad += len([k for k in use if k in bad_ks])
+        ctx.case(case, nontrivial=bool(bad_ks), kind="binsize-sweep")
+        bad = binsize_sweep_bad(case, a, m)
+        if bad:
+            ctx.fail(case, bad, None)
+        for p in (a, m):
+            if p.exists():
+                os.remove(p)
+    ctx.extra["binsize_sweep_float_unfriendly"] = nbad
+    if nbad < 10:
+        ctx.broke(f"generator: only {nbad} coarse bin sizes with a down-rounding reciprocal in the sweep")
+    return n
+
+
+def binsize_sweep_bad(case, a, m):
+    import cooler
+    blocks = blocks_from_widths(case["widths"])
+    base = case["base"]
+
+    def go():
+        cooler.zoomify_cooler(str(a), str(m), [base * k for k in case["ks"]], chunksize=case["chunksize"])
+        return {k: G.read_cooler(f"{m}::resolutions/{base * k}") for k in case["ks"]}
+    st, res = G.guarded(go, 120)
+    if st != "ok":
+        return {"what": "zoomify failed", "status": st, "type": res}
+    for k in case["ks"]:
+        eb, ep = G.oracle_coarsen(blocks, case["pixels"], k)
+        if res[k]["bins"] != eb or res[k]["pixels"] != ep:
+            return {"what": f"level {base * k} is not the block aggregation by {k} of the base", "coarse_binsize": base * k,
+                    "pixels": res[k]["pixels"][:12], "expected": ep[:12]}
+    return None
+
+
 # -------------------------------------------------------------------------- 4. CLI
 def ref_expand(spec, curres, maxres):
     """independent reading of the documented -r grammar (help text of `cooler zoomify`)"""
@@ -1035,6 +1087,7 @@ def run(ctx):
     scopes["zoomify_column_runs"] = part_cols(ctx)
     scopes["zoomify_dtype_runs"] = part_dtypes(ctx)
     scopes["param_scenarios"] = part_params(ctx)
+    scopes["binsize_sweep_levels"] = part_binsize_sweep(ctx)
     scopes["cli_runs"] = part_cli(ctx)
     ctx.exhaustive = True
     ctx.extra["scopes"] = scopes
@@ -1044,6 +1097,10 @@ def replay(ctx, case):
     fn = case["fn"]
     if fn == "param-scenario":
         return run_scenario(ctx.tmp, case["label"], SCENARIOS) is None
+    if fn.startswith("zoomify_cooler (coarse bin size"):
+        a, m = ctx.tmp / "replay_b.cool", ctx.tmp / "replay_b.mcool"
+        G.make_cooler(a, blocks_from_widths(case["widths"]), case["pixels"], True)
+        return binsize_sweep_bad(case, a, m) is None
     if fn == "get_multiplier_sequence":
         return oracle_multseq(case["resolutions"], case["bases"], impl_multseq(case["resolutions"], case["bases"]))
     if fn == "preferred_sequence":
